@@ -19,13 +19,13 @@ theorem reset_ok {α : Type} (s s' : ContextVars.State α) (c : Nat) (t : Contex
       intro c' hc; simp [hc]
 
 /-- everything `exitOne` in context `c'` leaves alone -/
-theorem exitOne_frame (s : State K V P) (c' : Nat) :
-    (exitOne s c').loggers = s.loggers ∧ (exitOne s c').handlers = s.handlers ∧
-    (exitOne s c').coreExtra = s.coreExtra ∧ (exitOne s c').corePatcher = s.corePatcher ∧
-    (exitOne s c').bases = s.bases ∧ (exitOne s c').cv.n = s.cv.n ∧
-    (exitOne s c').stacks = (fun c => if c = c' then (s.stacks c').tail else s.stacks c) ∧
-    (∀ c, c ≠ c' → (exitOne s c').cv.vals c = s.cv.vals c) ∧
-    (∃ new, (exitOne s c').out = s.out ++ new ∧ ∀ e ∈ new, e.isDelivered = false ∧ e.patcher? = none) := by
+theorem exitOne_frame (s : State K V P) (c' : Nat) (kind : ExitKind) :
+    (exitOne s c' kind).loggers = s.loggers ∧ (exitOne s c' kind).handlers = s.handlers ∧
+    (exitOne s c' kind).coreExtra = s.coreExtra ∧ (exitOne s c' kind).corePatcher = s.corePatcher ∧
+    (exitOne s c' kind).bases = s.bases ∧ (exitOne s c' kind).cv.n = s.cv.n ∧
+    (exitOne s c' kind).stacks = (fun c => if c = c' then (s.stacks c').tail else s.stacks c) ∧
+    (∀ c, c ≠ c' → (exitOne s c' kind).cv.vals c = s.cv.vals c) ∧
+    (∃ new, (exitOne s c' kind).out = s.out ++ new ∧ ∀ e ∈ new, e.isDelivered = false ∧ e.patcher? = none) := by
   unfold exitOne
   cases h : s.stacks c' with
   | nil =>
@@ -36,28 +36,32 @@ theorem exitOne_frame (s : State K V P) (c' : Nat) :
     · simp [hc]
   | cons f rest =>
     simp only
-    cases hr : ContextVars.reset s.cv c' f.tok with
-    | ok cv' =>
-      obtain ⟨h1, _, h3⟩ := reset_ok _ _ _ _ hr
-      exact ⟨rfl, rfl, rfl, rfl, rfl, h1, by simp, h3, [], by simp, by simp⟩
-    | error e =>
-      refine ⟨rfl, rfl, rfl, rfl, rfl, rfl, by simp, fun _ _ => rfl, [Event.error c' e], rfl, ?_⟩
-      intro e' he; simp at he; subst he; exact ⟨rfl, rfl⟩
+    by_cases hk : kind ∈ Gen.resetOn
+    · rw [if_pos hk]
+      cases hr : ContextVars.reset s.cv c' f.tok with
+      | ok cv' =>
+        obtain ⟨h1, _, h3⟩ := reset_ok _ _ _ _ hr
+        exact ⟨rfl, rfl, rfl, rfl, rfl, h1, by simp, h3, [], by simp, by simp⟩
+      | error e =>
+        refine ⟨rfl, rfl, rfl, rfl, rfl, rfl, by simp, fun _ _ => rfl, [Event.error c' e], rfl, ?_⟩
+        intro e' he; simp at he; subst he; exact ⟨rfl, rfl⟩
+    · rw [if_neg hk]
+      exact ⟨rfl, rfl, rfl, rfl, rfl, rfl, by simp, fun _ _ => rfl, [], by simp, by simp⟩
 
-theorem exitN_frame (s : State K V P) (c' n : Nat) :
-    (exitN s c' n).loggers = s.loggers ∧ (exitN s c' n).handlers = s.handlers ∧
-    (exitN s c' n).coreExtra = s.coreExtra ∧ (exitN s c' n).corePatcher = s.corePatcher ∧
-    (exitN s c' n).bases = s.bases ∧ (exitN s c' n).cv.n = s.cv.n ∧
-    (exitN s c' n).stacks = (fun c => if c = c' then (s.stacks c').drop n else s.stacks c) ∧
-    (∀ c, c ≠ c' → (exitN s c' n).cv.vals c = s.cv.vals c) ∧
-    (∃ new, (exitN s c' n).out = s.out ++ new ∧ ∀ e ∈ new, e.isDelivered = false ∧ e.patcher? = none) := by
+theorem exitN_frame (s : State K V P) (c' : Nat) (kind : ExitKind) (n : Nat) :
+    (exitN s c' kind n).loggers = s.loggers ∧ (exitN s c' kind n).handlers = s.handlers ∧
+    (exitN s c' kind n).coreExtra = s.coreExtra ∧ (exitN s c' kind n).corePatcher = s.corePatcher ∧
+    (exitN s c' kind n).bases = s.bases ∧ (exitN s c' kind n).cv.n = s.cv.n ∧
+    (exitN s c' kind n).stacks = (fun c => if c = c' then (s.stacks c').drop n else s.stacks c) ∧
+    (∀ c, c ≠ c' → (exitN s c' kind n).cv.vals c = s.cv.vals c) ∧
+    (∃ new, (exitN s c' kind n).out = s.out ++ new ∧ ∀ e ∈ new, e.isDelivered = false ∧ e.patcher? = none) := by
   induction n generalizing s with
   | zero =>
     refine ⟨rfl, rfl, rfl, rfl, rfl, rfl, ?_, fun _ _ => rfl, [], by simp [exitN], by simp⟩
     funext c; by_cases hc : c = c' <;> simp [exitN, hc]
   | succ n ih =>
-    obtain ⟨a1, a2, a3, a4, a5, a6, a7, a8, new1, a9, a10⟩ := exitOne_frame s c'
-    obtain ⟨b1, b2, b3, b4, b5, b6, b7, b8, new2, b9, b10⟩ := ih (exitOne s c')
+    obtain ⟨a1, a2, a3, a4, a5, a6, a7, a8, new1, a9, a10⟩ := exitOne_frame s c' kind
+    obtain ⟨b1, b2, b3, b4, b5, b6, b7, b8, new2, b9, b10⟩ := ih (exitOne s c' kind)
     refine ⟨by simp [exitN, b1, a1], by simp [exitN, b2, a2], by simp [exitN, b3, a3],
       by simp [exitN, b4, a4], by simp [exitN, b5, a5], by simp [exitN, b6, a6], ?_, ?_, new1 ++ new2, ?_, ?_⟩
     · simp only [exitN]; rw [b7, a7]
@@ -85,10 +89,10 @@ theorem step_n_bases (papply : P → Assoc K V → Assoc K V) (s : State K V P) 
     have : c ≠ s.cv.n := by omega
     simp [this]
   | exit =>
-    obtain ⟨_, _, _, _, a5, a6, _⟩ := exitOne_frame s c'
+    obtain ⟨_, _, _, _, a5, a6, _⟩ := exitOne_frame s c' .normal
     simp only [step]; rw [a5, a6]; simp
-  | raise k =>
-    obtain ⟨_, _, _, _, a5, a6, _⟩ := exitN_frame s c' k
+  | raise k kind =>
+    obtain ⟨_, _, _, _, a5, a6, _⟩ := exitN_frame s c' kind k
     simp only [step]; rw [a5, a6]; simp
   | configure e p => simp only [step]; cases e <;> cases p <;> simp
   | bind l kw => simp only [step]; split <;> simp
@@ -113,10 +117,10 @@ theorem step_other (papply : P → Assoc K V → Assoc K V) (s : State K V P) (c
     have : c ≠ s.cv.n := by omega
     simp [step, ContextVars.spawn, this]
   | exit =>
-    obtain ⟨_, _, _, _, _, _, a7, a8, _⟩ := exitOne_frame s c'
+    obtain ⟨_, _, _, _, _, _, a7, a8, _⟩ := exitOne_frame s c' .normal
     simp only [step]; rw [a7, a8 c hne]; simp [hne]
-  | raise k =>
-    obtain ⟨_, _, _, _, _, _, a7, a8, _⟩ := exitN_frame s c' k
+  | raise k kind =>
+    obtain ⟨_, _, _, _, _, _, a7, a8, _⟩ := exitN_frame s c' kind k
     simp only [step]; rw [a7, a8 c hne]; simp [hne]
   | configure e p => simp only [step]; cases e <;> cases p <;> simp
   | bind l kw => simp only [step]; split <;> simp
@@ -134,7 +138,7 @@ theorem step_other (papply : P → Assoc K V → Assoc K V) (s : State K V P) (c
 def stackAfter (st : List (Frame K V)) : Op K V P → Option (List (Frame K V))
   | .enter _ => none            -- one frame pushed (see `step_self_enter`)
   | .exit => some st.tail
-  | .raise k => some (st.drop k)
+  | .raise k _ => some (st.drop k)
   | _ => some st
 
 theorem step_self_stack (papply : P → Assoc K V → Assoc K V) (s : State K V P) (c : Nat) (op : Op K V P)
@@ -142,7 +146,7 @@ theorem step_self_stack (papply : P → Assoc K V → Assoc K V) (s : State K V 
     match op with
     | .enter kw => ∃ f, f.kw = kw ∧ (step papply s c op).stacks c = f :: s.stacks c
     | .exit => (step papply s c op).stacks c = (s.stacks c).tail
-    | .raise k => (step papply s c op).stacks c = (s.stacks c).drop k
+    | .raise k _ => (step papply s c op).stacks c = (s.stacks c).drop k
     | _ => (step papply s c op).stacks c = s.stacks c := by
   cases op with
   | enter kw =>
@@ -151,10 +155,10 @@ theorem step_self_stack (papply : P → Assoc K V → Assoc K V) (s : State K V 
     have : c ≠ s.cv.n := by omega
     simp [step, ContextVars.spawn, this]
   | exit =>
-    obtain ⟨_, _, _, _, _, _, a7, _⟩ := exitOne_frame s c
+    obtain ⟨_, _, _, _, _, _, a7, _⟩ := exitOne_frame s c .normal
     simp only [step]; rw [a7]; simp
-  | raise k =>
-    obtain ⟨_, _, _, _, _, _, a7, _⟩ := exitN_frame s c k
+  | raise k kind =>
+    obtain ⟨_, _, _, _, _, _, a7, _⟩ := exitN_frame s c kind k
     simp only [step]; rw [a7]; simp
   | configure e p => simp only [step]; cases e <;> cases p <;> simp
   | bind l kw => simp only [step]; split <;> simp
@@ -178,7 +182,7 @@ def Balanced (c : Nat) : Nat → List (Nat × Op K V P) → Prop
       match op with
       | .enter _ => Balanced c (d + 1) t
       | .exit => 1 ≤ d ∧ Balanced c (d - 1) t
-      | .raise k => k ≤ d ∧ Balanced c (d - k) t
+      | .raise k _ => k ≤ d ∧ Balanced c (d - k) t
       | _ => Balanced c d t
     else Balanced c d t
 
@@ -213,7 +217,7 @@ theorem balanced_stack (papply : P → Assoc K V → Assoc K V) (c : Nat) (t : L
         | nil => simp at hl; omega
         | cons f pre' =>
           exact ih _ (d - 1) pre' rest hc' (by rw [hself, hs]; rfl) (by simp at hl; omega) hb.2
-      | raise k =>
+      | raise k kind =>
         simp only at hself hb
         refine ih _ (d - k) (pre.drop k) rest hc' ?_ (by simp [hl]) hb.2
         rw [hself, hs, List.drop_append_of_le_length (by omega)]
@@ -276,10 +280,10 @@ theorem step_grows (papply : P → Assoc K V → Assoc K V) (s : State K V P) (c
   | enter kw => exact ⟨⟨[], by simp [step]⟩, ⟨[], by simp [step]⟩⟩
   | spawn copy => exact ⟨⟨[], by simp [step]⟩, ⟨[], by simp [step]⟩⟩
   | exit =>
-    obtain ⟨a1, _, _, _, _, _, _, _, new, a9, _⟩ := exitOne_frame s c
+    obtain ⟨a1, _, _, _, _, _, _, _, new, a9, _⟩ := exitOne_frame s c .normal
     exact ⟨⟨[], by simp [step, a1]⟩, ⟨new, by simp [step, a9]⟩⟩
-  | raise k =>
-    obtain ⟨a1, _, _, _, _, _, _, _, new, a9, _⟩ := exitN_frame s c k
+  | raise k kind =>
+    obtain ⟨a1, _, _, _, _, _, _, _, new, a9, _⟩ := exitN_frame s c kind k
     exact ⟨⟨[], by simp [step, a1]⟩, ⟨new, by simp [step, a9]⟩⟩
   | configure e p =>
     simp only [step]; cases e <;> cases p <;> exact ⟨⟨[], by simp⟩, ⟨[], by simp⟩⟩
@@ -313,22 +317,22 @@ theorem run_grows (papply : P → Assoc K V → Assoc K V) (t : List (Nat × Op 
 theorem step_no_error (papply : P → Assoc K V → Assoc K V) (s : State K V P) (c : Nat) (op : Op K V P)
     (hI : Inv s) (hE : ∀ e ∈ s.out, e.isError = false) :
     ∀ e ∈ (step papply s c op).out, e.isError = false := by
-  have exitN_out : ∀ (n : Nat) (s : State K V P), Inv s → (∀ e ∈ s.out, e.isError = false) →
-      ∀ e ∈ (exitN s c n).out, e.isError = false := by
-    intro n
+  have exitN_out : ∀ (kind : ExitKind) (n : Nat) (s : State K V P), Inv s → (∀ e ∈ s.out, e.isError = false) →
+      ∀ e ∈ (exitN s c kind n).out, e.isError = false := by
+    intro kind n
     induction n with
     | zero => intro s _ hE; exact hE
     | succ n ih =>
       intro s hI hE
-      refine ih (exitOne s c) (inv_exitOne s c hI) ?_
+      refine ih (exitOne s c kind) (inv_exitOne s c kind hI) ?_
       cases h : s.stacks c with
       | nil => unfold exitOne; rw [h]; exact hE
-      | cons f rest => rw [exitOne_cons s c f rest hI h]; exact hE
+      | cons f rest => rw [exitOne_cons s c kind f rest hI h]; exact hE
   cases op with
   | enter kw => simpa [step] using hE
   | spawn copy => simpa [step] using hE
-  | exit => exact exitN_out 1 s hI hE
-  | raise k => exact exitN_out k s hI hE
+  | exit => exact exitN_out .normal 1 s hI hE
+  | raise k kind => exact exitN_out kind k s hI hE
   | configure e p => simp only [step]; cases e <;> cases p <;> exact hE
   | bind l kw => simp only [step]; split <;> exact hE
   | patch l p => simp only [step]; split <;> exact hE
@@ -381,7 +385,7 @@ theorem balanced_append (c : Nat) (t1 t2 : List (Nat × Op K V P)) :
         have := ih (d1 - 1) d2 h1.2 h2
         have e : d1 - 1 + d2 = d1 + d2 - 1 := by omega
         rwa [e] at this
-      | raise k =>
+      | raise k kind =>
         simp only at h1 ⊢
         refine ⟨by omega, ?_⟩
         have := ih (d1 - k) d2 h1.2 h2
